@@ -98,14 +98,14 @@ Qed.
 
 (* The processed send of client c to universe x when c is the universe's only source. *)
 Lemma apply_single st c x d p :
-  st_now st <> 0 -> dmx_set d <> [] ->
+  st_wake st <> 0 -> st_now st < st_wake st + 2500000 -> dmx_set d <> [] ->
   find_uni (sv_unis (st_sv st)) (u_id x) = Some x ->
   (u_srcs x = [] \/ exists b, u_srcs x = [(c, b)]) ->
   NoDup (u_sinks x) -> st_pend st = [] ->
   (forall s, In s (u_sinks x) -> sv_alive (st_sv st) s = true /\ k_closed (st_cl st s) = false) ->
   let st' := apply_dmx st c x d p in
   cd_find (sv_cdata (st_sv st')) (c, u_id x)
-    = Some {| s_data := dmx_set d; s_ts := st_now st; s_prio := clamp_prio p |} /\
+    = Some {| s_data := dmx_set d; s_ts := st_wake st; s_prio := clamp_prio p |} /\
   (exists x2, find_uni (sv_unis (st_sv st')) (u_id x) = Some x2 /\
               u_buf x2 = dmx_set d /\ u_aprio x2 = clamp_prio p /\ u_sinks x2 = u_sinks x /\
               src_memb c (u_srcs x2) = true) /\
@@ -115,8 +115,8 @@ Lemma apply_single st c x d p :
   st_hz st' = st_hz st /\
   (forall rid y, snd (handle_req st' y (RGet rid (u_id x))) = Some (SDmx rid (u_id x) (clamp_prio p) (dmx_set d))).
 Proof.
-  intros Hnow Hd Hfind Hsrc Hnd Hpe Hall. unfold apply_dmx.
-  set (src := {| s_data := dmx_set d; s_ts := st_now st; s_prio := clamp_prio p |}).
+  intros Hnow Hfresh Hd Hfind Hsrc Hnd Hpe Hall. unfold apply_dmx.
+  set (src := {| s_data := dmx_set d; s_ts := st_wake st; s_prio := clamp_prio p |}).
   set (cd := cd_set (sv_cdata (st_sv st)) (c, u_id x) src).
   set (srcs := if src_memb c (u_srcs x) then _ else _).
   assert (srcs = [(c, false)]) as Es.
@@ -126,7 +126,7 @@ Proof.
                 u_srcs := srcs; u_sinks := u_sinks x |}).
   assert (live (st_now st) src = true) as Hl.
   { unfold live. cbn [s_ts s_data src]. apply N.eqb_neq in Hnow. rewrite Hnow. cbn [negb andb].
-    assert (st_now st <? st_now st + TIMEOUT_US = true) as -> by (apply N.ltb_lt; change TIMEOUT_US with 2500000; lia).
+    assert (st_now st <? st_wake st + TIMEOUT_US = true) as -> by (apply N.ltb_lt; change TIMEOUT_US with 2500000; lia).
     cbn [andb]. destruct (dmx_set d) eqn:Edd; [congruence|reflexivity]. }
   destruct (merge_single (st_now st) cd x1 c false src Es (cd_find_set_same _ _ _) Hl)
     as (x2 & Em & Eb & Ep & Ek & Ei & Esr & Eh).
